@@ -50,3 +50,47 @@ Definition geom_ok (b : blocks) : Prop :=
   (segments b * (blksInSegm b + 1) + 1) * blkSize b < 9223372036854775808 /\
   segments b * (blksInSegm b + 1) + 1 < 9223372036854775808.
 
+
+(** * Bytes: the bit operations of the generated code (Z) and of the model (N) *)
+From GL Require Import proofs.C17_Bytes.
+
+Lemma shl_bit_mask j : 0 <= j < 8 -> shl u8 8 1 j = Z.of_N (bit_mask (Z.to_N j)).
+Proof.
+  intros Hj. unfold shl, bit_mask. destruct (Z.leb_spec 8 j); [lia|].
+  assert (C : j = 0 \/ j = 1 \/ j = 2 \/ j = 3 \/ j = 4 \/ j = 5 \/ j = 6 \/ j = 7) by lia.
+  destruct C as [->|[->|[->|[->|[->|[->|[->| ->]]]]]]]; reflexivity.
+Qed.
+
+Lemma bit_clear_Z v j : 0 <= j < 8 ->
+  (Z.land (Z.of_N v) (shl u8 8 1 j) =? 0) = bit_is_clear v (Z.to_N j).
+Proof.
+  intros Hj. rewrite shl_bit_mask by exact Hj. unfold bit_is_clear.
+  rewrite <- N2Z_land. destruct (N.eqb_spec (N.land v (bit_mask (Z.to_N j))) 0) as [E|E].
+  - rewrite E. reflexivity.
+  - destruct (Z.eqb_spec (Z.of_N (N.land v (bit_mask (Z.to_N j)))) 0); [lia|reflexivity].
+Qed.
+
+Lemma set_bit_Z v j : 0 <= j < 8 ->
+  Z.lor (Z.of_N v) (shl u8 8 1 j) = Z.of_N (N.lor v (bit_mask (Z.to_N j))).
+Proof. intros Hj. rewrite shl_bit_mask by exact Hj. rewrite N2Z_lor. reflexivity. Qed.
+
+Lemma clear_bit_Z v j : 0 <= j < 8 ->
+  Z.land (Z.of_N v) (Z.lxor 255 (shl u8 8 1 j)) = Z.of_N (N.land v (N.lxor 255 (bit_mask (Z.to_N j)))).
+Proof.
+  intros Hj. rewrite shl_bit_mask by exact Hj. rewrite N2Z_land.
+  assert (C : j = 0 \/ j = 1 \/ j = 2 \/ j = 3 \/ j = 4 \/ j = 5 \/ j = 6 \/ j = 7) by lia.
+  destruct C as [->|[->|[->|[->|[->|[->|[->| ->]]]]]]]; reflexivity.
+Qed.
+
+(* reading and overwriting one element of a list *)
+Lemma znth_zsplice1 l at_ v off : 0 <= at_ < zlen l -> 0 <= off ->
+  znth (zsplice l at_ [v]) off = if off =? at_ then v else znth l off.
+Proof.
+  intros Ha Ho. unfold znth. rewrite nth_zsplice by (unfold zlen in *; cbn [length]; lia).
+  cbn [length]. destruct (Z.eqb_spec off at_) as [->|Hne].
+  - destruct (Nat.ltb_spec (Z.to_nat at_) (Z.to_nat at_)); [lia|].
+    destruct (Nat.ltb_spec (Z.to_nat at_) (Z.to_nat at_ + 1)); [|lia].
+    rewrite Nat.sub_diag. reflexivity.
+  - destruct (Nat.ltb_spec (Z.to_nat off) (Z.to_nat at_)); [reflexivity|].
+    destruct (Nat.ltb_spec (Z.to_nat off) (Z.to_nat at_ + 1)); [lia|reflexivity].
+Qed.
